@@ -57,6 +57,13 @@ def gen(rng, tier):
     # data lengths
     for nd in [1, 2, 255, 256, 4096, 65535, 65536]:
         cases.insert(7 * nd % 97, mk(rng, rnd_fields(rng), nd))
+    # the length field's carries and sign bit, each with all-ones / all-zeros / odd / even neighbours in the other fields
+    for nd in [127, 128, 129, 32767, 32768, 32769, 65535, 65536]:
+        combos = ((16383, 3), (0, 0), (rng.randrange(8192) * 2 + 1, 1), (rng.randrange(8192) * 2, 2))
+        for c, f in (combos if nd < 1000 or tier == "thorough" else (combos[0], combos[2])):
+            fs = rnd_fields(rng)
+            fs.update(c=c, f=f)
+            cases.append(mk(rng, fs, nd))
     # rejections: each field just outside on both sides, empty and oversized data
     for name, hi in FIELDS:
         for x in (-1, hi + 1, -(1 << 40), hi + 2, 1 << 20):
